@@ -220,3 +220,6 @@ func StrPlain(s string) bool {
 	}
 	return true
 }
+
+// DeepEq: structural equality (exported fields, nil-vs-empty sensitive), as the engine's snapshot comparison.
+func DeepEq(a, b any) bool { return Dump(a) == Dump(b) }
